@@ -97,14 +97,15 @@ var Profiles = map[string]func() Profile{
 	"lock": func() Profile {
 		p := base()
 		p.Name = "lock"
-		p.W = wts(int(KNewEntity), 12, int(KNewBatch), 3, int(KAdd), 6, int(KRemove), 4, int(KExchange), 3, int(KSet), 4, int(KWrite), 5,
+		p.W = wts(int(KNewEntity), 12, int(KNewBatch), 7, int(KAdd), 6, int(KRemove), 4, int(KExchange), 3, int(KSet), 4, int(KWrite), 5,
 			int(KSetRel), 3, int(KRemoveEntity), 5, int(KRegFilter), 2, int(KUnregFilter), 1,
 			int(KOpenQuery), 22, int(KStepQuery), 14, int(KCloseQuery), 10, int(KMisuse), 10, int(KEmit), 2, int(KStats), 1, int(KRemoveEntities), 1, int(KReset), 2,
-			int(KAddBatch), 2, int(KRemoveBatch), 2, int(KRegObs), 1, int(KSetRelBatch), 4, int(KExchangeBatch), 2, int(KCopy), 1, int(KShrink), 1)
+			int(KAddBatch), 3, int(KRemoveBatch), 2, int(KRegObs), 5, int(KUnregObs), 3, int(KSetRelBatch), 4, int(KExchangeBatch), 2, int(KCopy), 1, int(KShrink), 1)
 		p.QuerySlots = 64
 		p.FilterSlots = 4
 		p.MaxAlive = 40
-		p.ObsSlots = 2
+		p.ObsSlots = 4
+		p.RelPct = 70
 		return p
 	},
 	"observers": func() Profile {
